@@ -1,4 +1,5 @@
 import PyxisVerif.Props.C16
+import PyxisVerif.Props.CaseLift
 #print axioms PyxisVerif.C16.table_is_documented
 #print axioms PyxisVerif.C16.fromStr_asStr
 #print axioms PyxisVerif.C16.asStr_injective
@@ -11,3 +12,7 @@ import PyxisVerif.Props.C16
 #print axioms PyxisVerif.C16.wrapper_printer
 #print axioms PyxisVerif.C16.printers_agree_iff
 #print axioms PyxisVerif.C16.inherited_same
+#print axioms PyxisVerif.C16.case_built_cc
+#print axioms PyxisVerif.C16.case_placeholder_thiscall
+#print axioms PyxisVerif.C16.case_slot_carries_cc
+#print axioms PyxisVerif.C16.case_inherited_same
